@@ -35,7 +35,7 @@ PANIC_TABLE = {
     ("file::File::index_const", "panic", "panic_fmt"): "documented panicking constructor; callers proved in range",
     ("get_bishop_moves", "assert", "BoundsCheck"): "C05 in-bounds audit",
     ("get_rook_moves", "assert", "BoundsCheck"): "C05 in-bounds audit",
-    ("Board::parse_board", "assert", "Overflow:Add(usize)"): "file += digit / += 1: each addend is at most 9 and the sum is bounded by the input length, far below usize::MAX (recorded assumption)",
+    ("Board::parse_board*", "assert", "Overflow:Add(usize)"): "file += digit / += 1: each addend is at most 9 and the sum is bounded by the input length, far below usize::MAX (recorded assumption)",
 }
 
 
@@ -142,6 +142,10 @@ def run(ctx):
                 if sym.contains(e, lambda y: y[0] == "call" and y[1] == "str::parse" and y[2] == (sparam,)):
                     if isinstance(v, int) and v == 0:
                         witness = "delegated to str::parse (rejects empty input)"
+                # delegation of a piece of the field to a sub-stage that succeeded (the sub-stage is held to this rule itself)
+                subs = sym.subterms(e, lambda y: y[0] == "call" and y[1] in stages and y[1] != st)
+                if subs and isinstance(v, int) and v == 0 and any(sym.contains(a_, lambda z: z == sparam) for a_ in subs[0][2]):
+                    witness = "delegated a piece of the field to %s" % subs[0][1].rsplit("::", 1)[-1]
             ctx.check(witness is not None, "%s:non-empty" % sname,
                       "%s can return Ok on a path with no evidence that its field is non-empty (an empty field would be accepted)" % sname, loc(sb),
                       sample={"stage": sname, "witness": witness} if nok == 1 else None)
@@ -149,13 +153,27 @@ def run(ctx):
         if sname == "parse_board":
             ctx.rule("count-exactness")
             okp = [p for p in ps if p.end == "return" and p.ret[0] == "agg" and p.ret[2] == "Ok"]
-            for p in okp:
-                eq8 = []
-                for c in p.conds:
+
+            def guards8(path):
+                out = []
+                for c in path.conds:
                     e, v = c[0], c[1]
                     if e[0] == "bin" and e[1] in ("Eq", "Ne") and ("int", 8, "usize") in (e[2], e[3]) and ((e[1] == "Eq") == bool(v)):
-                        other = e[3] if e[2] == ("int", 8, "usize") else e[2]
-                        eq8.append(other)
+                        out.append(e[3] if e[2] == ("int", 8, "usize") else e[2])
+                return out
+            # sub-stages the placement stage delegates rows to: their own accepting paths contribute their guards
+            sub_guards = 0
+            for s2 in stages:
+                if s2 == st or not any(e_.kind == "call" and e_.name == s2 for p_ in okp for e_ in p_.events):
+                    continue
+                sp2 = sym.SymExec(f, f.need(s2), peel=True, count_next=True, max_paths=200000).run()
+                oks2 = [p_ for p_ in sp2 if p_.end == "return" and p_.ret[0] == "agg" and p_.ret[2] == "Ok"]
+                if oks2:
+                    sub_guards += min(len(guards8(p_)) for p_ in oks2)
+            for p in okp:
+                eq8 = guards8(p) + [("delegated",)] * sub_guards
+                if False:
+                    pass
                 # classify counters by the loop that carries them
                 kinds = set()
                 for o in eq8:
